@@ -485,6 +485,61 @@ def run_submodule_case(st: Stats, case):
     st.nontrivial.add(core.digest(case))
 
 
+IMPL_FORMS = {
+    "module subroutine": ("module subroutine {n}(a)\ninteger :: a\nend subroutine {n}", "module subroutine {n}(a)\ninteger :: a\nend subroutine {n}"),
+    "module function": ("module function {n}(a) result(r)\ninteger :: a, r\nend function {n}", "module function {n}(a) result(r)\ninteger :: a, r\nr = a\nend function {n}"),
+    "module procedure": ("module subroutine {n}(a)\ninteger :: a\nend subroutine {n}", "module procedure {n}\nend procedure {n}"),
+}
+
+
+def run_submodule_impl_case(st: Stats, case):
+    """separate module procedures: the interface in the ancestor module has the accessibility the module gives it; the
+    implementation is an entity of the submodule (all of whose entities are private), in each of the three forms."""
+    _, parent_default, access, forms = case
+    names = [f"impl{k}" for k in range(len(forms))]
+    ifc, impl = [], []
+    for n, f in zip(names, forms):
+        ifc += IMPL_FORMS[f][0].format(n=n).split("\n")
+        impl += IMPL_FORMS[f][1].format(n=n).split("\n")
+    acc = [f"{access} :: " + ", ".join(names)] if access != "none" else []
+    src = (["module pm", "implicit none"] + ([parent_default] if parent_default != "none" else []) + acc + ["interface"] + ifc + ["end interface", "end module pm",
+           "submodule (pm) sm", "implicit none", "integer :: helper_v", "contains"] + impl + ["subroutine helper()", "end subroutine helper", "end submodule sm"])
+    src = "\n".join(src) + "\n"
+    r = fordrun.build_fast({"src/m.f90": src}, DISPLAY_ALL)
+    st.evaluations += 1
+    st.transitions += 1
+    inp = dict(source=src)
+    stratum = "submodule-impl"
+    st.nontrivial.add(core.digest(case))
+    if r.error is not None or not r.project or not r.project.submodules or not r.project.modules or "ERROR in file" in r.log:
+        st.violation("ford-failed", stratum, {}, inp, repr(r.error) + r.log[-300:], "parses")
+        st.stratum(stratum, 1)
+        return
+    sm, pm = r.project.submodules[0], r.project.modules[0]
+    want_ifc = access if access != "none" else ("private" if parent_default == "private" else "public")
+    bad, got_all = 0, []
+    impls = {p.name.lower(): p for p in list(sm.subroutines) + list(sm.functions) + list(getattr(sm, "modprocedures", []))
+             + list(getattr(sm, "modsubroutines", [])) + list(getattr(sm, "modfunctions", []))}
+    bodies = {p.name.lower(): p for i in pm.interfaces for p in ([i.procedure] if getattr(i, "procedure", None) is not None else list(getattr(i, "routines", [])))}
+    for n, f in list(zip(names, forms)) + [("helper", "helper")]:
+        for where, ent, want in (("submodule", impls.get(n), "private"),) + ((("module", bodies.get(n), want_ifc),) if f != "helper" else ()):
+            got = ent.permission if ent is not None else "<missing>"
+            got_all.append(got)
+            if got != want:
+                bad += 1
+                st.violation("wrong-permission", stratum, dict(kind=f, where=where, parent_default=parent_default, access=access, expected=want, observed=got), inp, got, want)
+    st.stratum(stratum, bad)
+    st.states.add(core.digest([case, got_all]))
+
+
+def gen_submodule_impls():
+    for pd in ("none", "public", "private"):
+        for access in ("none", "public", "private"):
+            for k in range(1, 3):
+                for forms in itertools.product(IMPL_FORMS, repeat=k):
+                    yield ("submodule-impl", pd, access, list(forms))
+
+
 def gen_submodules():
     for pd in ("none", "public", "private"):
         for k in MODULE_KINDS:
@@ -503,6 +558,8 @@ def work(chunk):
             run_type_case(st, case)
         elif case[0] == "attrlist":
             run_attrlist_case(st, case)
+        elif case[0] == "submodule-impl":
+            run_submodule_impl_case(st, case)
         else:
             run_submodule_case(st, case)
     return st
@@ -510,9 +567,9 @@ def work(chunk):
 
 def all_cases(tier):
     if tier == "quick":
-        cases = list(gen_single([0, 3, 4])) + list(gen_pairs([0])) + list(gen_types(False)) + list(gen_submodules()) + list(gen_attrlists(False))
+        cases = list(gen_single([0, 3, 4])) + list(gen_pairs([0])) + list(gen_types(False)) + list(gen_submodules()) + list(gen_submodule_impls()) + list(gen_attrlists(False))
     else:
-        cases = list(gen_single([0, 1, 2, 3, 4])) + list(gen_pairs([0, 1, 2, 4])) + list(gen_types(True)) + list(gen_submodules()) + list(gen_attrlists(True))
+        cases = list(gen_single([0, 1, 2, 3, 4])) + list(gen_pairs([0, 1, 2, 4])) + list(gen_types(True)) + list(gen_submodules()) + list(gen_submodule_impls()) + list(gen_attrlists(True))
     return cases
 
 
@@ -526,7 +583,7 @@ def replay(path):
     print(src)
     print("observed previously:", rec["observed"], "expected:", rec["expected"], "features:", rec["features"])
     for m in r.project.modules + r.project.submodules:
-        for coll in ("variables", "types", "subroutines", "functions", "interfaces", "absinterfaces"):
+        for coll in ("variables", "types", "subroutines", "functions", "interfaces", "absinterfaces", "modprocedures"):
             for e in getattr(m, coll, []):
                 print(m.name, coll, e.name, e.permission)
     return 0
